@@ -43,18 +43,28 @@ def scale():
         return 1.0
 
 
-def fresh_digests(prop, mode, lo, hi, hashseed):
+def start_fresh_digests(prop, mode, lo, hi, hashseed):
+    """Fresh interpreter, another PYTHONHASHSEED, one worker, ascending
+    order; runs concurrently with the sweep."""
     env = dict(os.environ)
     env['PYTHONHASHSEED'] = str(hashseed)
     env['VERIF_WORKERS'] = '1'
-    out = subprocess.run(
+    return subprocess.Popen(
         [sys.executable, os.path.join(core.VERIF, 'sim', 'run.py'),
          'digests', prop, mode, str(lo), str(hi)],
-        env=env, capture_output=True, text=True, timeout=3600)
-    if out.returncode != 0:
+        env=env, stdout=subprocess.PIPE, stderr=subprocess.PIPE, text=True)
+
+
+def collect_fresh_digests(proc):
+    try:
+        out, err = proc.communicate(timeout=3600)
+    except subprocess.TimeoutExpired:
+        proc.kill()
+        raise core.HarnessError('fresh-interpreter digest run hung')
+    if proc.returncode != 0:
         raise core.HarnessError('fresh-interpreter digest run failed: %s'
-                                % out.stderr[-2000:])
-    return json.loads(out.stdout.strip().splitlines()[-1])
+                                % err[-2000:])
+    return json.loads(out.strip().splitlines()[-1])
 
 
 def cmd_digests(prop, mode, lo, hi):
@@ -81,6 +91,13 @@ def cmd_check(prop, tier):
                for m, n in eng.TIERS[prop][tier]]
     wall_cap = float(os.environ.get(
         'VERIF_WALL_CAP', '480' if tier == 'quick' else '14400'))
+    det_k = getattr(eng, 'DET_K', {}).get(tier) or \
+        (32 if tier == 'quick' else 512)
+    det_k = max(4, int(det_k * min(1, scale())))
+    fresh = {}
+    for mode, n in subruns:
+        fresh[mode] = start_fresh_digests(prop, mode, 0, min(det_k, n),
+                                          hashseed=12345 + len(mode))
     counters = core.Counter()
     states = set()
     digests_nontrivial = set()
@@ -105,7 +122,8 @@ def cmd_check(prop, tier):
         left = wall_cap - (time.time() - t0)
         res, cap = core.run_many(ENGINE_OF[prop], 'run_one', base, n,
                                  extra={'prop': prop, 'mode': mode},
-                                 wall_cap=max(30, left), stop_on=stop_on)
+                                 wall_cap=max(30, left), stop_on=stop_on,
+                                 chunk=getattr(eng, 'CHUNK', None))
         capped = capped or cap
         per_mode[mode] = len(res)
         all_results[mode] = {r['index']: r['digest'] for r in res}
@@ -165,22 +183,28 @@ def cmd_check(prop, tier):
     fid = {'checked': 0, 'mismatches': 0}
     harness_problem = None
     try:
-        k = max(4, int((32 if tier == 'quick' else 512) * min(1, scale())))
         for mode, n in subruns:
-            kk = min(k, per_mode.get(mode, 0))
+            kk = min(det_k, per_mode.get(mode, 0))
             idx = [j for j in range(kk) if j in all_results[mode]]
-            for j in reversed(idx):
-                d = eng.run_one(base, j, prop=prop, mode=mode)['digest']
+            if not idx:
+                fresh[mode].kill()
+                continue
+            # same seeds again in this process tree, other worker count and
+            # chunking (so other predecessors in the same worker)
+            again, _ = core.run_many(
+                ENGINE_OF[prop], 'run_one', base, idx[-1] + 1,
+                extra={'prop': prop, 'mode': mode}, workers=5, chunk=3)
+            for r in again:
                 det['in_process_checked'] += 1
-                if d != all_results[mode][j]:
+                if r['digest'] != all_results[mode].get(r['index']):
                     det['mismatches'] += 1
-            if idx:
-                fd = fresh_digests(prop, mode, idx[0], idx[-1] + 1,
-                                   hashseed=12345 + len(mode))
-                for j in idx:
-                    det['fresh_interpreter_checked'] += 1
-                    if fd.get(str(j)) != all_results[mode][j]:
-                        det['mismatches'] += 1
+                    det.setdefault('first_mismatch', [mode, r['index']])
+            fd = collect_fresh_digests(fresh[mode])
+            for j in idx:
+                det['fresh_interpreter_checked'] += 1
+                if fd.get(str(j)) != all_results[mode][j]:
+                    det['mismatches'] += 1
+                    det.setdefault('first_mismatch', [mode, j, 'fresh'])
         if det['mismatches']:
             harness_problem = 'non-deterministic runs: %r' % det
         if hasattr(eng, 'fidelity') and not violations:
